@@ -517,8 +517,11 @@ func (b *bufferManager) recycleBuffer(slice *bufferSlice) {
 	}
 	if slice.isFromShm {
 		for i := range b.lists {
-			if slice.cap == *b.lists[i].capPerBuffer {
-				b.lists[i].push(slice)
+			l := b.lists[i]
+			// several lists may share one capacity, the slice belongs to the list whose region holds it.
+			if slice.cap == *l.capPerBuffer && slice.offsetInShm >= l.bufferRegionOffsetInShm &&
+				slice.offsetInShm-l.bufferRegionOffsetInShm < uint32(len(l.bufferRegion)) {
+				l.push(slice)
 
 				break
 			}
